@@ -30,7 +30,7 @@ use std::io::Write;
 use std::pin::Pin;
 use std::sync::atomic::{AtomicBool, AtomicI64, AtomicUsize, Ordering::SeqCst};
 use std::sync::{Arc, Mutex};
-use std::task::{Context, Poll, Wake, Waker};
+use std::task::{Context, Poll, Waker};
 
 use arrow::array::{Array, Int32Array, RecordBatch};
 use arrow::datatypes::{DataType, Field, Schema, SchemaRef};
@@ -218,15 +218,81 @@ impl TempFileFactory for MemFactory {
 
 // ------------------------------------------------------------------ manual waker
 
+/// The reader's waker, built on a `RawWakerVTable` so that `clone` can be hooked: the code under
+/// test clones the waker exactly when it registers it (`register_waker(cx.waker().clone())`), i.e.
+/// inside the check-then-register region.  When armed, the k-th clone releases a writer thread and
+/// gives it a bounded moment to run *at that point of the reader's region*.
 #[derive(Default)]
 struct WakeFlag {
     woken: AtomicBool,
     count: AtomicUsize,
+    armed: Mutex<Option<Armed>>,
 }
-impl Wake for WakeFlag {
-    fn wake(self: Arc<Self>) {
-        self.woken.store(true, SeqCst);
-        self.count.fetch_add(1, SeqCst);
+
+struct Armed {
+    at_clone: usize,
+    seen: usize,
+    release: std::sync::mpsc::Sender<()>,
+    done: std::sync::mpsc::Receiver<bool>,
+    timeout: std::time::Duration,
+    fired: bool,
+    /// the writer's operation ran to completion while the reader was inside `clone`
+    done_in_gap: Option<bool>,
+}
+
+impl WakeFlag {
+    fn on_clone(&self) {
+        let mut g = self.armed.lock().unwrap();
+        if let Some(a) = g.as_mut() {
+            if !a.fired {
+                a.seen += 1;
+                if a.seen == a.at_clone {
+                    a.fired = true;
+                    let _ = a.release.send(());
+                    a.done_in_gap = a.done.recv_timeout(a.timeout).ok();
+                }
+            }
+        }
+    }
+    fn arm(&self, at_clone: usize, release: std::sync::mpsc::Sender<()>, done: std::sync::mpsc::Receiver<bool>, timeout: std::time::Duration) {
+        *self.armed.lock().unwrap() = Some(Armed { at_clone, seen: 0, release, done, timeout, fired: false, done_in_gap: None });
+    }
+    fn disarm(&self) -> Armed {
+        self.armed.lock().unwrap().take().expect("armed")
+    }
+}
+
+mod rawwaker {
+    use super::WakeFlag;
+    use std::sync::Arc;
+    use std::sync::atomic::Ordering::SeqCst;
+    use std::task::{RawWaker, RawWakerVTable, Waker};
+
+    static VTABLE: RawWakerVTable = RawWakerVTable::new(clone, wake, wake_by_ref, drop_raw);
+
+    unsafe fn clone(p: *const ()) -> RawWaker {
+        unsafe {
+            Arc::increment_strong_count(p as *const WakeFlag);
+            (*(p as *const WakeFlag)).on_clone();
+        }
+        RawWaker::new(p, &VTABLE)
+    }
+    unsafe fn wake(p: *const ()) {
+        let a = unsafe { Arc::from_raw(p as *const WakeFlag) };
+        a.woken.store(true, SeqCst);
+        a.count.fetch_add(1, SeqCst);
+    }
+    unsafe fn wake_by_ref(p: *const ()) {
+        let a = unsafe { &*(p as *const WakeFlag) };
+        a.woken.store(true, SeqCst);
+        a.count.fetch_add(1, SeqCst);
+    }
+    unsafe fn drop_raw(p: *const ()) {
+        drop(unsafe { Arc::from_raw(p as *const WakeFlag) });
+    }
+    pub fn make(flag: &Arc<WakeFlag>) -> Waker {
+        let p = Arc::into_raw(Arc::clone(flag)) as *const ();
+        unsafe { Waker::from_raw(RawWaker::new(p, &VTABLE)) }
     }
 }
 
@@ -257,7 +323,20 @@ enum Op {
     PushBegin { w: usize, id: usize, rows: usize, fault: Fault },
     /// lets the stopped push of sink `w` run to completion (ignored if none is stopped)
     PushCont { w: usize, fault: Fault },
+    /// reader poll during which — at the `k`-th `Waker::clone`, i.e. inside the reader's
+    /// check-then-register region — a writer thread is released to perform `wop`.
+    /// `must_wake`: `wop` is the event the reader waits for, so its waker has to be woken.
+    GapPoll { k: usize, wop: GapOp, must_wake: bool },
 }
+
+#[derive(Clone, Copy, Debug)]
+enum GapOp {
+    Push { w: usize, id: usize, rows: usize, fault: Fault },
+    Drop { w: usize },
+}
+
+/// how long the reader waits inside `Waker::clone` for the released writer (calibrated at start)
+static GAP_WAIT_US: std::sync::atomic::AtomicU64 = std::sync::atomic::AtomicU64::new(20_000);
 
 struct InFlight {
     id: usize,
@@ -359,6 +438,7 @@ struct World {
     parked_unwoken_before_poll: bool,
     last_pending: bool,
     saw_eos: bool,
+    has_gap: bool,
     // oracle failures: (signature kind, detail)
     fails: Vec<(String, String)>,
     kinds: BTreeSet<&'static str>,
@@ -386,7 +466,7 @@ impl World {
             (Sink::S(w), r)
         };
         let flag = Arc::new(WakeFlag::default());
-        let waker = Waker::from(Arc::clone(&flag));
+        let waker = rawwaker::make(&flag);
         let (ev_tx, ev_rx) = std::sync::mpsc::channel();
         World {
             inflight: Default::default(),
@@ -406,6 +486,7 @@ impl World {
             parked_unwoken_before_poll: false,
             last_pending: false,
             saw_eos: false,
+            has_gap: false,
             fails: vec![],
             kinds: BTreeSet::new(),
         }
@@ -517,6 +598,91 @@ impl World {
         };
         let env = self.finish_push(fl.id, ok);
         Some((format!("(pushc {w} {env})"), if ok { "ok".into() } else { "err".into() }))
+    }
+
+    /// one reader poll with a writer operation released inside the reader's registration region
+    fn gap_poll(&mut self, k: usize, wop: GapOp, must_wake: bool, hist: &str) -> (String, String) {
+        self.has_gap = true;
+        let (rel_tx, rel_rx) = std::sync::mpsc::channel::<()>();
+        let (done_tx, done_rx) = std::sync::mpsc::channel::<bool>();
+        let piece;
+        let job: Job = match wop {
+            GapOp::Push { w, id, rows, fault } => {
+                let b = batch(id, rows);
+                piece = format!("(gappoll {k} (push {w} {id} {} {fault:?}))", b.get_array_memory_size());
+                self.set_fault(fault);
+                let sink = Arc::clone(self.sinks[w].as_ref().unwrap());
+                Box::new(move || {
+                    let _ = rel_rx.recv();
+                    let ok = sink.push(&b).is_ok();
+                    drop(sink);
+                    let _ = done_tx.send(ok);
+                })
+            }
+            GapOp::Drop { w } => {
+                piece = format!("(gappoll {k} (drop {w}))");
+                let sink = self.sinks[w].take().unwrap();
+                Box::new(move || {
+                    let _ = rel_rx.recv();
+                    drop(sink);
+                    let _ = done_tx.send(true);
+                })
+            }
+        };
+        let busy: Vec<usize> = self.inflight.values().map(|f| f.worker).collect();
+        let worker = (0..workers().len()).find(|i| !busy.contains(i)).expect("a free worker thread");
+        workers()[worker].lock().unwrap().send(job).unwrap();
+        let wait = std::time::Duration::from_micros(GAP_WAIT_US.load(SeqCst));
+        self.flag.arm(k, rel_tx.clone(), done_rx, wait);
+        let h = format!("{hist} {piece})");
+        let r = self.poll(&h);
+        let armed = self.flag.disarm();
+        if !armed.fired {
+            // the poll registered nothing (it returned Ready): the writer runs after it
+            let _ = rel_tx.send(());
+        }
+        let ok = match armed.done_in_gap {
+            Some(ok) => ok,
+            None => match armed.done.recv_timeout(std::time::Duration::from_secs(60)) {
+                Ok(ok) => ok,
+                Err(_) => {
+                    eprintln!("C16 harness: the writer operation released inside the reader's registration region did not finish within 60 s (deadlock?); history {h}");
+                    std::process::exit(3);
+                }
+            },
+        };
+        match wop {
+            GapOp::Push { id, .. } => {
+                let _ = self.finish_push(id, ok);
+            }
+            GapOp::Drop { .. } => {
+                self.live -= 1;
+                self.kinds.insert(if self.live == 0 { "drop-last" } else { "drop-nonlast" });
+            }
+        }
+        self.kinds.insert(if armed.fired { "gap-fired" } else { "gap-not-reached" });
+        if armed.fired && armed.done_in_gap.is_some() {
+            self.kinds.insert("gap-writer-ran-inside-region");
+        }
+        let woken = self.flag.woken.load(SeqCst);
+        let mut res = format!("{}{}", r.show(), if woken { "+woken" } else { "" });
+        if armed.fired && r == PollRes::Pending && !woken {
+            // nobody woke the reader although the writer's operation is complete: it must have
+            // nothing to get, i.e. an immediate re-poll must be Pending again
+            let r2 = self.poll(&format!("{h} then (poll)"));
+            res.push_str(&format!(",repoll={}", r2.show()));
+            if must_wake || r2 != PollRes::Pending {
+                self.fail(
+                    "lost-wakeup-gap",
+                    format!(
+                        "the writer operation {wop:?} was released at Waker::clone #{k} of a reader poll that returned Pending (the operation {} while the reader was inside clone); it has completed, the reader's waker was never woken, and an immediate re-poll returned {} ; history {h}",
+                        if armed.done_in_gap.is_some() { "ran to completion" } else { "was blocked" },
+                        r2.show()
+                    ),
+                );
+            }
+        }
+        (piece, res)
     }
 
     fn clone_sink(&mut self, w: usize, sink: bool) {
@@ -651,6 +817,7 @@ fn run_mem(max: usize, mpsc: bool, chunk: usize, ops: &[Op]) -> (String, String,
                 Some(x) => x,
                 None => return,
             },
+            Op::GapPoll { k, wop, must_wake } => wd.gap_poll(k, wop, must_wake, req),
         };
         req.push(' ');
         req.push_str(&piece);
@@ -694,8 +861,17 @@ fn record(run: &mut Run, req: &str, ans: &str, wd: &World, tag: &str) {
     if files > 1 {
         kinds += 1;
     }
-    run.case("run", req, ans, kinds >= 5);
-    for kind in ["delivered-once", "spsc-order", "eos-early", "lost-wakeup", "reader-stranded", "reader-error"] {
+    if wd.has_gap {
+        // a writer ran concurrently with one poll: checked by the oracles only (the per-op waker
+        // flag of that poll is a race), not sent to the model
+        run.count("gap-histories");
+        if run.samples.len() < 5 && run.counters.get("gap-histories") == Some(&1) {
+            run.samples.push(format!("C16 gap-history {req} => {ans}"));
+        }
+    } else {
+        run.case("run", req, ans, kinds >= 5);
+    }
+    for kind in ["delivered-once", "spsc-order", "eos-early", "lost-wakeup", "lost-wakeup-gap", "reader-stranded", "reader-error"] {
         let f = wd.fails.iter().find(|(k, _)| k == kind);
         run.oracle(f.is_none(), &format!("{kind} {tag} hist={req}"), f.map(|x| x.1.as_str()).unwrap_or(""));
     }
@@ -1027,6 +1203,308 @@ fn exhaustive_short(run: &mut Run, depth: usize, max: usize) {
     rec(run, max, depth, &mut vec![], &mut vec![0], 1, 1);
 }
 
+// ------------------------------------------------------------------ forcing a writer into the reader's check-then-register region
+
+/// round trip "release a parked worker thread -> it reports back" under the current machine load;
+/// the reader waits 40x the worst of 16 samples (10 ms .. 400 ms) inside `Waker::clone`
+fn calibrate_gap_wait() -> std::time::Duration {
+    let mut worst = std::time::Duration::ZERO;
+    for _ in 0..16 {
+        let (rel_tx, rel_rx) = std::sync::mpsc::channel::<()>();
+        let (done_tx, done_rx) = std::sync::mpsc::channel::<bool>();
+        let job: Job = Box::new(move || {
+            let _ = rel_rx.recv();
+            let _ = done_tx.send(true);
+        });
+        workers()[0].lock().unwrap().send(job).unwrap();
+        std::thread::sleep(std::time::Duration::from_micros(200));
+        let t0 = std::time::Instant::now();
+        rel_tx.send(()).unwrap();
+        let _ = done_rx.recv();
+        worst = worst.max(t0.elapsed());
+    }
+    let w = (worst * 40).clamp(std::time::Duration::from_millis(10), std::time::Duration::from_millis(400));
+    GAP_WAIT_US.store(w.as_micros() as u64, SeqCst);
+    w
+}
+
+/// the five situations in which the reader's registration must not race with the event it waits
+/// for; `prefix` brings the channel there, the last op is the armed poll
+fn gap_scenarios() -> Vec<(&'static str, bool, usize, Vec<Op>, GapOp)> {
+    let s = batch(0, ROWS_SMALL).get_array_memory_size();
+    let big = 1usize << 30;
+    let push = |w, id, rows| Op::Push { w, id, rows, fault: Fault::None };
+    let mut out: Vec<(&'static str, bool, usize, Vec<Op>, GapOp)> = vec![];
+    for mpsc in [false, true] {
+        // reader caught up on file 0 (still open); the push appends to file 0
+        out.push(("file-wait+push", mpsc, big, vec![push(0, 1, ROWS_SMALL), Op::Poll], GapOp::Push { w: 0, id: 2, rows: ROWS_SMALL, fault: Fault::None }));
+        // … and rotates it (append, finish, writer_finished)
+        out.push(("file-wait+push-rotate", mpsc, 2 * s - 1, vec![push(0, 1, ROWS_SMALL), Op::Poll], GapOp::Push { w: 0, id: 2, rows: ROWS_SMALL, fault: Fault::None }));
+        // … the append fails: the repaired error path finishes the file and wakes
+        out.push(("file-wait+push-append-fails", mpsc, big, vec![push(0, 1, ROWS_SMALL), Op::Poll], GapOp::Push { w: 0, id: 2, rows: ROWS_SMALL, fault: Fault::Write(0) }));
+        // … the rotation finish fails
+        out.push(("file-wait+push-finish-fails", mpsc, 2 * s - 1, vec![push(0, 1, ROWS_SMALL), Op::Poll], GapOp::Push { w: 0, id: 2, rows: ROWS_SMALL, fault: Fault::Finish }));
+        // … the last sink is dropped: Drop finalizes file 0
+        out.push(("file-wait+last-drop", mpsc, big, vec![push(0, 1, ROWS_SMALL), Op::Poll], GapOp::Drop { w: 0 }));
+        // the reader has already returned Pending once on file 0 (a stale registration exists)
+        out.push(("file-wait-second-pending+push", mpsc, big, vec![push(0, 1, ROWS_SMALL), Op::Poll, Op::Poll], GapOp::Push { w: 0, id: 2, rows: ROWS_LARGE, fault: Fault::None }));
+        // nothing queued, a sink is alive: the push publishes a new file
+        out.push(("pool-wait+new-file", mpsc, big, vec![], GapOp::Push { w: 0, id: 1, rows: ROWS_SMALL, fault: Fault::None }));
+        // … after a rotated and fully read file
+        out.push(("pool-wait-after-rotation+new-file", mpsc, 0, vec![push(0, 1, ROWS_SMALL), Op::Poll], GapOp::Push { w: 0, id: 2, rows: ROWS_SMALL, fault: Fault::None }));
+        // nothing queued and no open file: the last drop is the end of the stream
+        out.push(("pool-wait+last-drop", mpsc, big, vec![], GapOp::Drop { w: 0 }));
+        out.push(("pool-wait-after-rotation+last-drop", mpsc, 0, vec![push(0, 1, ROWS_SMALL), Op::Poll], GapOp::Drop { w: 0 }));
+    }
+    // two sinks: the other sink's push goes to the file the reader waits on; the last of two drops
+    out.push(("file-wait+push-by-clone", true, big, vec![push(0, 1, ROWS_SMALL), Op::Clone { w: 0, sink: false }, Op::Poll], GapOp::Push { w: 1, id: 2, rows: ROWS_SMALL, fault: Fault::None }));
+    out.push(("file-wait+last-of-two-drops", true, big, vec![push(0, 1, ROWS_SMALL), Op::Clone { w: 0, sink: true }, Op::Drop { w: 0 }, Op::Poll], GapOp::Drop { w: 1 }));
+    out.push(("pool-wait+last-of-two-drops", true, big, vec![Op::Clone { w: 0, sink: false }, Op::Drop { w: 1 }], GapOp::Drop { w: 0 }));
+    out
+}
+
+/// A miniature re-implementation of the channel's coordination (pool lock + per-file lock, same
+/// regions as spill_pool.rs, no I/O), used ONLY to check on every run that the detector above
+/// fires for the defect class it exists for: `Split::File` / `Split::Pool` perform the reader's
+/// "caught up / nothing queued" check and the waker registration under two lock acquisitions.
+mod mini {
+    use parking_lot::Mutex;
+    use std::collections::VecDeque;
+    use std::sync::Arc;
+    use std::task::{Context, Poll, Waker};
+
+    pub struct FileSt {
+        written: usize,
+        finished: bool,
+        waker: Option<Waker>,
+    }
+    pub struct PoolSt {
+        files: VecDeque<Arc<Mutex<FileSt>>>,
+        open: VecDeque<Arc<Mutex<FileSt>>>,
+        count: usize,
+        waker: Option<Waker>,
+    }
+    #[derive(Clone, Copy, PartialEq, Eq, Debug)]
+    pub enum Split {
+        None,
+        File,
+        Pool,
+    }
+    pub struct Writer {
+        shared: Arc<Mutex<PoolSt>>,
+        pub rotate_at: usize,
+    }
+    pub struct Reader {
+        shared: Arc<Mutex<PoolSt>>,
+        cur: Option<Arc<Mutex<FileSt>>>,
+        read: usize,
+        split: Split,
+    }
+    pub fn channel(rotate_at: usize, split: Split) -> (Writer, Reader) {
+        let shared = Arc::new(Mutex::new(PoolSt { files: VecDeque::new(), open: VecDeque::new(), count: 1, waker: None }));
+        (Writer { shared: Arc::clone(&shared), rotate_at }, Reader { shared, cur: None, read: 0, split })
+    }
+    impl Writer {
+        pub fn push(&self) {
+            let mut sh = self.shared.lock();
+            let f = if let Some(f) = sh.open.pop_front() {
+                f
+            } else {
+                drop(sh);
+                let f = Arc::new(Mutex::new(FileSt { written: 0, finished: false, waker: None }));
+                sh = self.shared.lock();
+                sh.files.push_back(Arc::clone(&f));
+                if let Some(w) = sh.waker.take() {
+                    w.wake();
+                }
+                f
+            };
+            drop(sh);
+            let mut fs = f.lock();
+            fs.written += 1;
+            if let Some(w) = fs.waker.take() {
+                w.wake();
+            }
+            if fs.written >= self.rotate_at {
+                fs.finished = true;
+                if let Some(w) = fs.waker.take() {
+                    w.wake();
+                }
+            } else {
+                drop(fs);
+                self.shared.lock().open.push_back(f);
+            }
+        }
+    }
+    impl Drop for Writer {
+        fn drop(&mut self) {
+            let mut sh = self.shared.lock();
+            sh.count -= 1;
+            if sh.count != 0 {
+                return;
+            }
+            if !sh.open.is_empty() {
+                let files = std::mem::take(&mut sh.open);
+                drop(sh);
+                for f in files {
+                    let mut fs = f.lock();
+                    fs.finished = true;
+                    if let Some(w) = fs.waker.take() {
+                        w.wake();
+                    }
+                }
+                sh = self.shared.lock();
+            }
+            if let Some(w) = sh.waker.take() {
+                w.wake();
+            }
+        }
+    }
+    enum FileRes {
+        Item,
+        End,
+        Pending,
+    }
+    impl Reader {
+        pub fn poll(&mut self, cx: &mut Context<'_>) -> Poll<Option<()>> {
+            loop {
+                if let Some(f) = self.cur.clone() {
+                    let r = {
+                        let mut fs = f.lock();
+                        if self.read < fs.written {
+                            self.read += 1;
+                            FileRes::Item
+                        } else if fs.finished {
+                            FileRes::End
+                        } else if self.split == Split::File {
+                            // the seeded defect: check and register under two lock acquisitions
+                            drop(fs);
+                            let w = cx.waker().clone();
+                            f.lock().waker = Some(w);
+                            FileRes::Pending
+                        } else {
+                            fs.waker = Some(cx.waker().clone());
+                            FileRes::Pending
+                        }
+                    };
+                    match r {
+                        FileRes::Item => return Poll::Ready(Some(())),
+                        FileRes::End => {
+                            self.shared.lock().files.pop_front();
+                            self.cur = None;
+                            self.read = 0;
+                            continue;
+                        }
+                        FileRes::Pending => {
+                            self.shared.lock().waker = Some(cx.waker().clone());
+                            return Poll::Pending;
+                        }
+                    }
+                }
+                let mut sh = self.shared.lock();
+                if let Some(f) = sh.files.front() {
+                    self.cur = Some(Arc::clone(f));
+                    self.read = 0;
+                    continue;
+                }
+                if sh.count == 0 {
+                    return Poll::Ready(None);
+                }
+                if self.split == Split::Pool {
+                    drop(sh);
+                    let w = cx.waker().clone();
+                    self.shared.lock().waker = Some(w);
+                    return Poll::Pending;
+                }
+                sh.waker = Some(cx.waker().clone());
+                return Poll::Pending;
+            }
+        }
+    }
+}
+
+#[derive(Clone, Copy, Debug, PartialEq, Eq)]
+enum MiniScn {
+    FilePush,
+    FileRotate,
+    FileLastDrop,
+    PoolNewFile,
+    PoolLastDrop,
+}
+
+/// runs one scenario of the detector on the miniature channel; true = "lost wake-up detected"
+fn mini_probe(scn: MiniScn, split: mini::Split, wait: std::time::Duration) -> bool {
+    let rotate_at = if scn == MiniScn::FileRotate { 2 } else { 1000 };
+    let (writer, mut reader) = mini::channel(rotate_at, split);
+    let flag = Arc::new(WakeFlag::default());
+    let waker = rawwaker::make(&flag);
+    let mut poll = |reader: &mut mini::Reader| {
+        let mut cx = Context::from_waker(&waker);
+        reader.poll(&mut cx)
+    };
+    if matches!(scn, MiniScn::FilePush | MiniScn::FileRotate | MiniScn::FileLastDrop) {
+        writer.push();
+        assert!(matches!(poll(&mut reader), Poll::Ready(Some(()))));
+    }
+    let (rel_tx, rel_rx) = std::sync::mpsc::channel::<()>();
+    let (done_tx, done_rx) = std::sync::mpsc::channel::<bool>();
+    let job: Job = Box::new(move || {
+        let _ = rel_rx.recv();
+        match scn {
+            MiniScn::FilePush | MiniScn::FileRotate | MiniScn::PoolNewFile => {
+                writer.push();
+                let _ = done_tx.send(true);
+                // the sink stays alive (its Drop would wake the pool and blur the observation)
+                std::mem::forget(writer);
+            }
+            MiniScn::FileLastDrop | MiniScn::PoolLastDrop => {
+                drop(writer);
+                let _ = done_tx.send(true);
+            }
+        }
+    });
+    workers()[0].lock().unwrap().send(job).unwrap();
+    flag.woken.store(false, SeqCst);
+    flag.arm(1, rel_tx.clone(), done_rx, wait);
+    let r = poll(&mut reader);
+    let armed = flag.disarm();
+    if !armed.fired {
+        let _ = rel_tx.send(());
+    }
+    if armed.done_in_gap.is_none() {
+        let _ = armed.done.recv_timeout(std::time::Duration::from_secs(60));
+    }
+    armed.fired && r.is_pending() && !flag.woken.load(SeqCst)
+}
+
+/// the detector must stay silent on the correct miniature channel and fire on the split ones
+fn gap_selftest(run: &mut Run, wait: std::time::Duration) {
+    use mini::Split;
+    let all = [MiniScn::FilePush, MiniScn::FileRotate, MiniScn::FileLastDrop, MiniScn::PoolNewFile, MiniScn::PoolLastDrop];
+    for scn in all {
+        for split in [Split::None, Split::File, Split::Pool] {
+            let file_level = matches!(scn, MiniScn::FilePush | MiniScn::FileRotate | MiniScn::FileLastDrop);
+            let expect = match split {
+                Split::None => false,
+                Split::File => file_level,
+                Split::Pool => !file_level,
+            };
+            // escalate the wait (machine load) before concluding that the detector is blind
+            let mut w = wait;
+            let mut got = mini_probe(scn, split, w);
+            while expect && !got && w < std::time::Duration::from_secs(10) {
+                w *= 4;
+                got = mini_probe(scn, split, w);
+            }
+            if got != expect {
+                eprintln!("C16 harness: self-test of the registration-gap detector failed: scenario {scn:?} on the miniature channel with split={split:?}: detected={got}, expected={expect}");
+                std::process::exit(4);
+            }
+            run.count(if expect { "gap-selftest-split-detected" } else { "gap-selftest-silent" });
+        }
+    }
+}
+
 // ------------------------------------------------------------------ disk twin
 
 /// the same history on real temp files; every push must answer like the `mem` twin and every
@@ -1070,7 +1548,7 @@ fn run_disk(max: usize, mpsc: bool, ops: &[Op], twin_ans: &[String], rt: &Arc<to
             }
             Op::Clone { w, sink } => wd.clone_sink(w, sink),
             Op::Drop { w } => wd.drop_sink(w),
-            Op::PushBegin { .. } | Op::PushCont { .. } => unreachable!("disk histories are not gated"),
+            Op::PushBegin { .. } | Op::PushCont { .. } | Op::GapPoll { .. } => unreachable!("disk histories are not gated"),
             Op::Poll => {
                 let got = if expect == "pending" {
                     // one poll; file I/O may also make it Pending, anything Ready is a divergence
@@ -1135,6 +1613,76 @@ pub fn run(run: &mut Run, args: &Args) {
         exhaustive_short(run, if thorough { 4 } else { 3 }, s + 1);
         if thorough {
             exhaustive_short(run, 3, 1 << 30);
+        }
+    }
+
+    // (0c) a writer forced into the reader's check-then-register region (lost wake-up detector)
+    {
+        let wait = calibrate_gap_wait();
+        run.note(&format!("registration-gap detector: the reader waits {} us inside Waker::clone for the released writer", wait.as_micros()));
+        gap_selftest(run, wait);
+        let reps = if thorough { 6 } else { 2 };
+        for rep_i in 0..reps {
+            for (name, mpsc, max, prefix, wop) in gap_scenarios() {
+                for k in [1usize, 2] {
+                    let mut ops = prefix.clone();
+                    ops.push(Op::GapPoll { k, wop, must_wake: true });
+                    let chunk = *rng.pick(&[7usize, 4096]);
+                    let (req, ans, wd) = run_mem(max, mpsc, chunk, &ops);
+                    record(run, &req, &ans, &wd, &format!("scenario={name} k={k} rep={rep_i}"));
+                    run.count("gap-scenarios");
+                }
+            }
+        }
+        // random prefix, then a random writer operation released inside a reader poll
+        let n_gap = if thorough { 4000 } else { 400 };
+        for i in 0..n_gap {
+            let mpsc = rng.chance(3, 4);
+            let len = rng.below(10) as usize;
+            let mut ops = random_history(&mut rng, len, mpsc, false, false);
+            // keep a sink alive for the writer operation: cut the prefix before its last drop
+            let mut alive = 1i64;
+            let mut cut = ops.len();
+            for (j, op) in ops.iter().enumerate() {
+                match op {
+                    Op::Clone { .. } => alive += 1,
+                    Op::Drop { .. } => {
+                        alive -= 1;
+                        if alive == 0 {
+                            cut = j;
+                            break;
+                        }
+                    }
+                    _ => {}
+                }
+            }
+            ops.truncate(cut);
+            let mut live: Vec<usize> = vec![0];
+            let mut nw = 1;
+            let mut next_id = 1;
+            for op in &ops {
+                match op {
+                    Op::Clone { .. } => {
+                        live.push(nw);
+                        nw += 1;
+                    }
+                    Op::Drop { w } => live.retain(|x| x != w),
+                    Op::Push { id, .. } => next_id = next_id.max(id + 1),
+                    _ => {}
+                }
+            }
+            if live.is_empty() {
+                continue;
+            }
+            let w = *rng.pick(&live);
+            let wop = if rng.chance(1, 3) {
+                GapOp::Drop { w }
+            } else {
+                GapOp::Push { w, id: next_id, rows: if rng.chance(1, 4) { ROWS_LARGE } else { ROWS_SMALL }, fault: pick_fault(&mut rng) }
+            };
+            ops.push(Op::GapPoll { k: 1 + rng.below(2) as usize, wop, must_wake: false });
+            let (req, ans, wd) = run_mem(pick_max(&mut rng), mpsc, 4096, &ops);
+            record(run, &req, &ans, &wd, &format!("gaprand#{i}"));
         }
     }
 
